@@ -47,10 +47,10 @@ def oracle(spec, res):
         return []
     it = res[1]
     nv = it[0]
-    v2 = np.array(it[1:1 + 3 * nv], dtype=np.float64).reshape(-1, 3)
+    v2 = np.array(np.reshape(it[1:1 + 3 * nv], (-1, 3)), dtype=np.float64)
     j = 1 + 3 * nv
     nf = it[j]
-    f2 = np.array(it[j + 1:j + 1 + 3 * nf], dtype=int).reshape(-1, 3)
+    f2 = np.array(np.reshape(it[j + 1:j + 1 + 3 * nf], (-1, 3)), dtype=int)
     j += 1 + 3 * nf
     m2 = it[j + 1:j + 1 + it[j]]
     if len(m2) != len(f2):
@@ -68,6 +68,11 @@ def oracle(spec, res):
 
     def off(p):
         return vdot(nF, vsub(p, oF))
+
+    n1 = sum(abs(x) for x in nF)
+
+    def repr_slack(q):
+        return 4 * Fraction(2) ** -52 * max(abs(c) for c in q) * n1
 
     by_src = {}
     for k, src in enumerate(m2):
@@ -105,6 +110,10 @@ def oracle(spec, res):
             Q = [Fv(v2[i]) for i in f2[k]]
             for q in Q:
                 dq = off(q)
+                if any(q == c for c in P) and dq < -tol - repr_slack(q):
+                    # an input corner in the output: its offset is exact, so the only slack is what one rounding of the
+                    # coordinates is worth (a computed crossing point may round onto the corner next to it)
+                    bad("not-behind", "%s: the corner %s, behind the plane by %.3e, is part of the output" % (tag, [float(c) for c in q], float(-dq)))
                 if dq < -tol - eps_d:
                     bad("not-behind", "%s: output vertex %s lies behind the plane (offset %.3e)" % (tag, [float(c) for c in q], float(dq)))
                 if NN > 0:
